@@ -308,6 +308,9 @@ def oracle_entry_points(ctx, sc, mod, src, cls_name, v, conforming_kind):
     eps["BasicEncoder(D).encode(x)"] = lambda: BasicEncoder(D, **kw).encode(x)
     if not Dl:
         eps["encode(x, D)"] = lambda: encode(x, D)
+        # a fresh, immediately dropped type object per call (builtin generics are not interned)
+        eps["encode([x], list[D])[0]"] = lambda: encode([x], list[D])[0]
+        eps["encode({'k':x}, dict[str,D])['k']"] = lambda: encode({"k": x}, dict[str, D])["k"]
     eps["BasicEncoder(List[D]).encode([x])[0]"] = lambda: BasicEncoder(List[D], **kw).encode([x])[0]
     eps["BasicEncoder(Dict[str,D]).encode({'k':x})['k']"] = lambda: BasicEncoder(Dict[str, D], **kw).encode({"k": x})["k"]
     eps["BasicEncoder(Tuple[D,int]).encode((x,1))[0]"] = lambda: BasicEncoder(Tuple[D, int], **kw).encode((x, 1))[0]
@@ -352,6 +355,7 @@ def oracle_entry_points(ctx, sc, mod, src, cls_name, v, conforming_kind):
         dps["BasicDecoder(D).decode(d)"] = lambda: BasicDecoder(D, **kw).decode(dobj)
         if not Dl:
             dps["decode(d, D)"] = lambda: decode(dobj, D)
+            dps["decode([d], list[D])[0]"] = lambda: decode([dobj], list[D])[0]
         dps["BasicDecoder(List[D]).decode([d])[0]"] = lambda: BasicDecoder(List[D], **kw).decode([dobj])[0]
         dps["BasicDecoder(Dict[str,D]).decode({'k':d})['k']"] = lambda: BasicDecoder(Dict[str, D], **kw).decode({"k": dobj})["k"]
         dps["BasicDecoder(Tuple[D,int]).decode([d,1])[0]"] = lambda: BasicDecoder(Tuple[D, int], **kw).decode([dobj, 1])[0]
@@ -850,6 +854,10 @@ def replay(rep: dict) -> int:
             sc = scenario_from_module(mod, rep)
             if entry.startswith("entry-points") or entry == "optional-none":
                 v = tup(rep.get("value")) if rep.get("value") is not None else default_value(sc, rep["class"])
+                # the recorded input in the context of the other classes of the module (history-dependent
+                # failures such as colliding caches need the neighbouring calls)
+                for k in sc.classes:
+                    oracle_entry_points(ctx, sc, mod, src, k.name, default_value(sc, k.name), "replay")
                 oracle_entry_points(ctx, sc, mod, src, rep["class"], v, "replay")
             else:
                 vals = [tup(v) for v in rep.get("values", [])]
